@@ -48,6 +48,7 @@ var generators = map[string]func(rec *lib.Rec, r *lib.Rng, thorough bool){
 	"C01": genC01,
 	"C02": genC02,
 	"C03": genC03,
+	"C17": genC17,
 	"GEN": func(rec *lib.Rec, r *lib.Rng, thorough bool) {
 		genTranslatorStream(rec, r, map[bool]int{false: 2000, true: 100000}[thorough], nil)
 	},
